@@ -227,6 +227,26 @@ class SimRawStdout(io.RawIOBase):
         return len(data)
 
 
+class _Fd1Proxy(io.RawIOBase):
+    """Another descriptor-level handle on the simulated fd 1 (closing it does not close the device)."""
+
+    def __init__(self, raw):
+        super().__init__()
+        self._raw = raw
+
+    def writable(self):
+        return True
+
+    def fileno(self):
+        return 1
+
+    def isatty(self):
+        return self._raw.isatty()
+
+    def write(self, b):
+        return self._raw.write(b)
+
+
 class _CountingFile:
     """Proxy around a real text file of the project tree: counts lines handed to the tool and
     raises the planned read error after `fail_after` lines."""
@@ -674,6 +694,7 @@ class Sim:
         self.repo_writes = []
         self.lines_hit = set()
         self.open_writers = []
+        self.raw_stdout = None
         self.yields = 0
         self.pause_at = None
         self.parked = None
@@ -1007,6 +1028,16 @@ class Sim:
     # -- files ---------------------------------------------------------------------------------
     def sim_open(self, file, mode="r", *a, **kw):
         if isinstance(file, int):
+            if file == 1 and any(c in mode for c in "wa") and self.raw_stdout is not None:
+                # a second handle on fd 1 (open(sys.stdout.fileno(), "wb", buffering=0, closefd=False)
+                # and the like): it leads to the simulated device too
+                self.log("open_fd1", mode=mode)
+                proxy = _Fd1Proxy(self.raw_stdout)
+                buffering = kw.get("buffering", a[0] if a else -1)
+                if "b" in mode:
+                    return proxy if buffering == 0 else io.BufferedWriter(proxy, self.bufsize if buffering in (-1, 1) else buffering)
+                enc = kw.get("encoding") or (a[1] if len(a) > 1 else None) or "utf-8"
+                return io.TextIOWrapper(io.BufferedWriter(proxy, self.bufsize), encoding=enc, errors=kw.get("errors"), newline=kw.get("newline"), line_buffering=(buffering == 1))
             return self.real_open(file, mode, *a, **kw)
         rel = self.relproj(file)
         ap = self.abspath(file)
@@ -1320,6 +1351,7 @@ class Sim:
 
         mode = env.get("stdout_mode", "block")
         raw = SimRawStdout(self, tty=(mode == "line"))
+        self.raw_stdout = raw
         if mode == "unbuffered":
             out = io.TextIOWrapper(raw, encoding="utf-8", errors="strict", write_through=True)
         else:
